@@ -4,7 +4,9 @@ import (
 	"fmt"
 	"go/ast"
 	"go/constant"
+	"go/printer"
 	"go/token"
+	"strconv"
 	"strings"
 )
 
@@ -74,6 +76,110 @@ func genEdBlacklist() (string, error) {
 		sb.WriteString("\n")
 	}
 	sb.WriteString("]\n")
+	// statements of IsEdLowOrder / PublicKeyToCurve25519 that write through their byte-slice parameter
+	// (the classifier compares "ignoring the sign bit" on a masked COPY of byte 31: an in-place
+	// `ge[31] &= 0x7f` would change the caller's key)
+	var writes []string
+	for _, t := range []struct{ rel, fn string }{{rel, "IsEdLowOrder"}, {"util/extra25519/extra25519.go", "PublicKeyToCurve25519"}} {
+		w, err := paramWrites(t.rel, t.fn)
+		if err != nil {
+			return "", err
+		}
+		writes = append(writes, w...)
+	}
+	sb.WriteString("\n/-- every statement of `IsEdLowOrder` / `PublicKeyToCurve25519` that writes through the function's byte-slice parameter (index / slice assignment, `++`/`--`, `copy` into it, `scrub.Scrub` of it) -/\ndef inputWrites : List String := [")
+	for i, w := range writes {
+		if i > 0 {
+			sb.WriteString(", ")
+		}
+		sb.WriteString(strconv.Quote(w))
+	}
+	sb.WriteString("]\n")
 	sb.WriteString(footer("EdBlacklist"))
 	return sb.String(), nil
+}
+
+// paramWrites lists the statements of function fn (file rel) that write through its first parameter,
+// which must be a byte slice (`[]byte` or a named slice type such as ed25519.PublicKey).
+func paramWrites(rel, fn string) ([]string, error) {
+	fset, f, err := parseFile(rel)
+	if err != nil {
+		return nil, err
+	}
+	var fd *ast.FuncDecl
+	for _, d := range f.Decls {
+		if x, ok := d.(*ast.FuncDecl); ok && x.Recv == nil && x.Name.Name == fn {
+			fd = x
+		}
+	}
+	if fd == nil || fd.Body == nil || fd.Type.Params == nil || len(fd.Type.Params.List) != 1 || len(fd.Type.Params.List[0].Names) != 1 {
+		return nil, fmt.Errorf("%s: function %s with exactly one parameter not found", rel, fn)
+	}
+	param := fd.Type.Params.List[0].Names[0].Name
+	show := func(n ast.Node) string {
+		var sb strings.Builder
+		_ = printer.Fprint(&sb, fset, n)
+		return fn + ": " + strings.Join(strings.Fields(sb.String()), " ")
+	}
+	// base strips index / slice / paren / star expressions: ge[31], ge[:4][0], (*p)[1]
+	var base func(e ast.Expr) string
+	base = func(e ast.Expr) string {
+		switch x := e.(type) {
+		case *ast.IndexExpr:
+			return base(x.X)
+		case *ast.SliceExpr:
+			return base(x.X)
+		case *ast.ParenExpr:
+			return base(x.X)
+		case *ast.StarExpr:
+			return base(x.X)
+		case *ast.Ident:
+			return x.Name
+		}
+		return ""
+	}
+	var out []string
+	var bad error
+	ast.Inspect(fd.Body, func(n ast.Node) bool {
+		switch x := n.(type) {
+		case *ast.AssignStmt:
+			for _, l := range x.Lhs {
+				if _, isIdent := l.(*ast.Ident); !isIdent && base(l) == param {
+					out = append(out, show(x))
+				}
+			}
+			// an alias of the parameter (`b := ge`, `p := ge[:]`) would hide later writes: refuse the shape
+			for i, r := range x.Rhs {
+				if base(r) == param {
+					if _, isIdx := r.(*ast.IndexExpr); !isIdx && i < len(x.Lhs) {
+						bad = fmt.Errorf("%s: %s aliases its parameter %s (%s): unsupported shape", rel, fn, param, show(x))
+					}
+				}
+			}
+		case *ast.IncDecStmt:
+			if base(x.X) == param {
+				out = append(out, show(x))
+			}
+		case *ast.RangeStmt:
+			if x.Key != nil && base(x.Key) == param || x.Value != nil && base(x.Value) == param {
+				out = append(out, show(x.Key))
+			}
+		case *ast.CallExpr:
+			name := ""
+			switch c := x.Fun.(type) {
+			case *ast.Ident:
+				name = c.Name
+			case *ast.SelectorExpr:
+				name = c.Sel.Name
+			}
+			if (name == "copy" || name == "Scrub" || name == "clear") && len(x.Args) > 0 && base(x.Args[0]) == param {
+				out = append(out, show(x))
+			}
+		}
+		return true
+	})
+	if bad != nil {
+		return nil, bad
+	}
+	return out, nil
 }
